@@ -262,7 +262,7 @@ def finish(res, level, t0, checker_cmd, explanation=''):
     wall = time.time() - t0
     # obligations excluded by a listed known finding are reported separately, not as proved
     excl = set(res.excluded_by_known)
-    res.obligations -= len([x for x in excl if not x.startswith('ground:')])
+    res.obligations -= len([x for x in excl if not x.startswith(('ground:', 'bounded:', 'frames#'))])
     write_evidence(res, level, wall, checker_cmd, explanation)
     for line in res.known:
         print(line)
